@@ -94,7 +94,7 @@ func TestC25(t *testing.T) {
 	hup := make(chan os.Signal, 1)
 	signal.Notify(hup, syscall.SIGHUP)
 	defer signal.Stop(hup)
-	r.Rule("end-to-end runs of the real mtail.Server (not one-shot) with a program directory holding two fixed programs sharing a metric name with different kinds (the later one is refused at registration), a syntactically broken program and 1-2 generated programs (some raising runtime errors), and a history of log appends to two files incl. a file discovered by glob and a rotation, program edits / removals / re-adds each followed by SIGHUP. At the quiescent end: lines_total == lines written == fan-out hook count; log_lines_total[path] == lines written to path; prog_runtime_errors_total[p] == errors the reference interpreter predicts for the lines p processed; prog_loads / unloads / load_errors_total == model events (a refused registration and a compile failure count on every scan); log_count == live streams; the mtail_-prefixed series of a /metrics scrape equal the expvars. Plus shutdown runs: a burst of lines, slow programs, wake-up and immediate cancellation; after Run returned lines_total == fan-out count == sum of log_lines_total. Non-trivial: run with >=1 reload step and >=1 runtime error; distinct by run index.")
+	r.Rule("end-to-end runs of the real mtail.Server (not one-shot) with a program directory holding two fixed programs sharing a metric name with different kinds (the later one is refused at registration), a syntactically broken program and 1-2 generated programs (some raising runtime errors), and a history of log appends (one line in three repeats the file's previous line verbatim) to two files incl. a file discovered by glob and a rotation, program edits / removals / re-adds each followed by SIGHUP. At the quiescent end: lines_total == lines written == fan-out hook count; log_lines_total[path] == lines written to path; prog_runtime_errors_total[p] == errors the reference interpreter predicts for the lines p processed; prog_loads / unloads / load_errors_total == model events (a refused registration and a compile failure count on every scan); log_count == live streams; the mtail_-prefixed series of a /metrics scrape equal the expvars. Plus shutdown runs: a burst of lines, slow programs, wake-up and immediate cancellation; after Run returned lines_total == fan-out count == sum of log_lines_total. Non-trivial: run with >=1 reload step and >=1 runtime error; distinct by run index.")
 	r.Assume("steps are separated by logical barriers so every written line is delivered (C16 establishes that)", "program edits are comment-only so a program's semantics do not change within a run")
 	lh := func(id uint64, name string, l *logline.LogLine, phase int) {
 		if phase != 0 {
@@ -368,6 +368,7 @@ func oneRun(t *testing.T, r *ev.Run, g *ev.RNG, base string, run int) (string, i
 		return "INCONCLUSIVE startup barrier\n" + dump(), 0, 0
 	}
 	seq := 0
+	lastLine := map[string]string{}
 	appendLines := func(path string, n int) string {
 		f, err := os.OpenFile(path, os.O_APPEND|os.O_WRONLY|os.O_CREATE, 0o644)
 		if err != nil {
@@ -379,6 +380,12 @@ func oneRun(t *testing.T, r *ev.Run, g *ev.RNG, base string, run int) (string, i
 			if l == "" {
 				l = "x"
 			}
+			// real logs repeat themselves: one line in three is the line last
+			// written to this file again (same text, same program state path)
+			if prev := lastLine[path]; prev != "" && g.Intn(3) == 0 {
+				l = prev
+			}
+			lastLine[path] = l
 			fmt.Fprintf(f, "%s\n", l)
 			written[path]++
 		}
